@@ -8,11 +8,19 @@ import json
 import random
 from typing import Any, Literal, Optional, Union
 
-from pydantic import BaseModel, TypeAdapter
+from typing import Annotated
+
+from pydantic import AfterValidator, BaseModel, Field, PositiveInt, TypeAdapter
 
 from . import engine
 from .core import Family, Result
 from .vloop import Hang, VLoop, hard_close
+
+
+def _even_x(p):
+    if p.x % 2:
+        raise ValueError('x must be even')
+    return p
 
 
 class Pt(BaseModel):
@@ -33,8 +41,11 @@ TYPES: dict[str, Any] = {
     'int|None': int | None, 'Optional[str]': Optional[str], 'Union[int,str]': Union[int, str], 'Literal': Literal['a', 'b', 3],
     'list[int]|None': list[int] | None, 'Union[Pt,int]': Union[Pt, int],
     'Pt': Pt, 'Box': Box, 'list[Pt]': list[Pt], 'dict[str,Pt]': dict[str, Pt], 'Optional[Pt]': Optional[Pt],
+    # constrained types: the constraint is part of the declared type (the referee - pydantic's own TypeAdapter - enforces it)
+    'PositiveInt': PositiveInt, 'Optional[PositiveInt]': Optional[PositiveInt], 'ShortList': Annotated[list[int], Field(max_length=2)],
+    'CodeStr': Annotated[str, Field(pattern=r'^[A-Z]{3}$')], 'EvenPt': Annotated[Pt, AfterValidator(_even_x)], 'Percent': Annotated[float, Field(ge=0, le=100)],
 }
-NONCLASS = {'int|None', 'Optional[str]', 'Union[int,str]', 'Literal', 'list[int]|None', 'Union[Pt,int]', 'Optional[Pt]'}
+NONCLASS = {'PositiveInt', 'Optional[PositiveInt]', 'ShortList', 'CodeStr', 'EvenPt', 'Percent', 'int|None', 'Optional[str]', 'Union[int,str]', 'Literal', 'list[int]|None', 'Union[Pt,int]', 'Optional[Pt]'}
 
 
 def mkval(spec, bus=None):
@@ -116,6 +127,12 @@ def rand_valspec(rng: random.Random, tname: str):
         'list[Pt]': [{'j': [{'x': 1}, {'x': 2, 'y': 3}]}, {'j': [{'y': 1}]}, {'j': []}, {'j': {'x': 1}}],
         'dict[str,Pt]': [{'j': {'a': {'x': 1}}}, {'j': {'a': {'y': 1}}}, {'j': {}}],
         'Optional[Pt]': [{'pt': {'x': 1}}, {'j': {'x': 1}}, {'j': None}, {'j': {'q': 1}}],
+        'PositiveInt': [{'j': 7}, {'j': -5}, {'j': 0}, {'j': '3'}, {'j': 'x'}, {'j': 2.0}],
+        'Optional[PositiveInt]': [{'j': 7}, {'j': -5}, {'j': 0}, {'j': None}],
+        'ShortList': [{'j': [1, 2]}, {'j': [1, 2, 3]}, {'j': []}, {'j': ['1']}, {'j': 'ab'}],
+        'CodeStr': [{'j': 'ABC'}, {'j': 'abc'}, {'j': 'ABCD'}, {'j': 5}, {'j': ''}],
+        'EvenPt': [{'pt': {'x': 2}}, {'pt': {'x': 3}}, {'j': {'x': 4}}, {'j': {'x': 5}}, {'j': 6}],
+        'Percent': [{'j': 50}, {'j': 100.0}, {'j': 100.5}, {'j': -1}, {'j': '12.5'}],
         'none': [{'j': 5}, {'j': 'a'}, {'j': [1, 2]}, {'j': {'a': 1}}, {'pt': {'x': 1}}, {'tuple': [{'j': 1}]}, {'bytes': '00'}],
     }
     return rng.choice(pools[tname])
